@@ -211,6 +211,35 @@ theorem within_limit_accepted {Val : Type} (w : WriterCfg Val) (rcfg : ReaderCfg
   C01.unmarshal_marshal w rcfg zero hcodec hpool hc hz v rest tail
     ⟨by omega, Or.inr ⟨hwire, hplain⟩⟩
 
+/-! ### the largest limit there is: `n + 1` in 64-bit arithmetic
+
+  The model above counts in `Nat`; the code computes `readMaxBytes + 1` in `int64` for the
+  `io.LimitReader` that bounds what is buffered. These three statements tie the two: under the
+  guard the code uses, 64-bit `n + 1` is the natural-number `n + 1`; without it the largest
+  limit wraps to a negative bound (a `LimitReader` that yields nothing: every message would
+  arrive empty, and "at most N is accepted intact" would fail for N = 2^63 - 1); and every site
+  that computes such a bound is under that guard (fact regenerated from the source). -/
+
+/-- **limit_plus_one_no_wrap**: for `0 < n < math.MaxInt64`, `n + 1` does not wrap. -/
+theorem limit_plus_one_no_wrap (n : BitVec 64) (h0 : 0 < n.toInt) (h1 : n.toInt < 2 ^ 63 - 1) :
+    (n + 1).toInt = n.toInt + 1 ∧ 0 < (n + 1).toInt := by
+  have : (n + 1).toInt = n.toInt + 1 := by
+    rw [BitVec.toInt_add]
+    simp only [BitVec.toInt_ofNat, Nat.reducePow]
+    simp only [Int.bmod_def]
+    omega
+  omega
+
+/-- … and at `math.MaxInt64` it does: the bound would be negative. -/
+theorem limit_plus_one_wraps_at_max : ((BitVec.ofInt 64 (2 ^ 63 - 1)) + 1#64).toInt < 0 := by decide
+
+/-- **limit_sites_guarded**: every `io.LimitReader(r, n+1)` in the package sits under an `if`
+    that compares against `math.MaxInt64` (`Gen.limitReaderPlusOneSites`, rebuilt by
+    `tools/extract` from the syntax tree on every run). -/
+theorem limit_sites_guarded : ∀ w ∈ Gen.limitReaderPlusOneSites, w.2 = 0 := by decide
+
+example : Gen.limitReaderPlusOneSites.length = 2 := by decide
+
 /-! non-vacuity: N = 2; a 3-byte frame is rejected, a lying prefix allocates nothing -/
 example : ((envRead 2).run takeExact { flat := [0,0,0,0,3,1,2,3,9], tail := .eof }).1 =
     { outcome := .fail { code := codeInvalidArgument, wrapsEOF := false }, grown := 0 } := by decide
